@@ -192,6 +192,9 @@ def _apply(coo, ref, make, fails, hist_names):
     if raised is not None:
         fails.append({"site": "consistent write rejected", "msg": f"{type(raised).__name__}: {raised}; history {hist_names}", "data": {"history": list(hist_names)}})
         return False
+    if type(value) is type(coo):
+        # a container used as VALUE stays an object of its own: remember what it holds
+        _KIDS.setdefault(id(coo), []).append([value, value.toarray().copy(), coo])
     if expect[0] == "noop":
         return False
     _, rows, cols, block = expect
@@ -201,8 +204,27 @@ def _apply(coo, ref, make, fails, hist_names):
     return False
 
 
+_KIDS = {}
+
+
 def _compare(coo, ref, fails, hist_names):
     n = 0
+    # containers that were nested into this one: later writes into the parent must not show up in them, and a write into
+    # them must not show up in the parent (no shared buffers; seeded C15-l)
+    for rec in _KIDS.get(id(coo), []):
+        kid, snap, parent = rec
+        if parent is not coo:
+            continue
+        n += 1
+        try:
+            got = kid.toarray()
+            if got.shape != snap.shape or not np.array_equal(got, snap):
+                fails.append({"site": "a container used as value is changed by later writes into its parent", "msg": f"history {hist_names}", "data": {"history": list(hist_names)}})
+            if kid.shape[0] and kid.shape[1]:
+                kid[0, 0] = 2.5
+                snap[0, 0] += 2.5
+        except Exception as e:  # noqa
+            fails.append({"site": "a container used as value cannot be used any more", "msg": f"{type(e).__name__}: {e}; history {hist_names}", "data": {"history": list(hist_names)}})
     for name, conv in CONVERSIONS:
         n += 1
         try:
@@ -227,6 +249,7 @@ def check(case):
     changed_any = False
     canon = set()
     if case["kind"] == "chain":
+        _KIDS.clear()
         coo = CooMatrix(shape)
         ref = np.zeros(shape)
         names = []
@@ -250,6 +273,7 @@ def check(case):
     for d in range(1, depth + 1):
         for tail in itertools.product(range(len(L)), repeat=d - 1):
             hist = (first,) + tail
+            _KIDS.clear()
             coo = CooMatrix(shape)
             ref = np.zeros(shape)
             names = [L[i][0] for i in hist]
